@@ -391,6 +391,21 @@ func init() {
 		}
 		return fr.ex().fresh("duration.String", sStr, 0)
 	})
+	// time.After / time.NewTimer.C: a channel that becomes ready at an arbitrary later point (threaded
+	// mode: a helper thread sends after a switch point; L3 mode: never ready)
+	reg("time.After", func(fr *frame, a []value) value {
+		ex := fr.ex()
+		ch := &vchan{cap: 1, elem: nil}
+		if ex.threaded() {
+			send := &nativeFn{name: "time.After.fire", fn: func(fr2 *frame, _ []value) value {
+				ex.yield()
+				ex.chanSend(ch, timeVal(ex.now()))
+				return nil
+			}}
+			ex.startThread(fr.i, send, nil)
+		}
+		return ch
+	})
 	reg("time.Sleep", func(fr *frame, a []value) value {
 		ex := fr.ex()
 		if d, ok := a[0].(int64); ok {
@@ -824,6 +839,18 @@ func init() {
 	reg("verifBound", func(fr *frame, a []value) value { return int(boundOf(fr.ex(), name(fr, a[0]), asInt64(a[1]))) })
 	reg("verifIsSymbolic", func(fr *frame, a []value) value { return isSym(a[0].(iface).v) })
 	reg("verifYield", func(fr *frame, a []value) value { fr.ex().yield(); return nil })
+	reg("verifYieldAny", func(fr *frame, a []value) value {
+		// a switch point at which any runnable thread may continue, not charged to the preemption bound
+		ex := fr.ex()
+		if !ex.threaded() {
+			return nil
+		}
+		saved := ex.preemptions
+		ex.preemptions = -1 << 30
+		ex.yieldK(false, true)
+		ex.preemptions = saved
+		return nil
+	})
 	reg("verifSleep", func(fr *frame, a []value) value { fr.ex().sleep(); return nil })
 	reg("verifBlockUntil", func(fr *frame, a []value) value {
 		ex := fr.ex()
